@@ -7,7 +7,7 @@
    cut = 1e-4 (the code's constant); n3 = Euclidean norm of a 3-vector;
    qnorm2 = squared norm of a quaternion; vdist = Euclidean distance. *)
 Require Import ZArith Reals Lra List Permutation.
-Require Import BFL.Ops BFL.C19_ROps BFL.C18_Model BFL.C18_Proofs.
+Require Import BFL.Ops BFL.C19_ROps BFL.C18_Model BFL.C18_Proofs BFL.C18_Mean.
 Import ListNotations.
 Local Open Scope R_scope.
 
@@ -155,8 +155,134 @@ Theorem C18_mean_symmetric eig (qc : Q) w0 (ws : list R) (al : list Q) :
   qmean ROps eig (sym_weights w0 ws) (sym_quats qc al) = qneg qc.
 Proof. exact (mean_symmetric eig qc w0 ws al). Qed.
 
-(* partial (negative central weight w0, as in unscented sets, or wide offsets): dominance of the centre's
-   eigenvalue is a premise (explicit eigen-gap), not derived *)
+(* ---- (a) negation / permutation as equalities of the accumulated matrix (mat_eq = entrywise) ... *)
+Theorem C18_mean_matrix_negation_invariant (bs : list bool) (w : list R) (qs : list Q) :
+  mat_eq (outer_sum ROps w (flip bs qs)) (outer_sum ROps w qs).
+Proof. exact (outer_sum_flip bs w qs). Qed.
+
+Theorem C18_mean_matrix_permutation_invariant (w : list R) (qs : list Q) w' qs' :
+  Permutation (combine w qs) (combine w' qs') -> mat_eq (outer_sum ROps w' qs') (outer_sum ROps w qs).
+Proof. exact (outer_sum_perm w qs w' qs'). Qed.
+
+(* ... and what the eigen-solver contract fixes: two answers meeting it on equal matrices are the same ROTATION
+   (v' = +-v) as soon as the largest eigenvalue is simple
+   (is_top A lam: lam dominates every eigenvalue; top_simple A: the eigenvectors of a dominating eigenvalue are collinear) *)
+Theorem C18_mean_contract_fixes_rotation (A B : mat4 ROps) (v v' : Q) : mat_eq A B -> top_simple A ->
+  max_eig_contract A v -> max_eig_contract B v' -> v' = v \/ v' = qneg v.
+Proof. exact (contract_line A B v v'). Qed.
+
+(* the simplicity premise cannot be dropped: M = I/4 (the four basis quaternions, equal weights); 1 and i both meet the contract *)
+Theorem C18_mean_contract_needs_simplicity :
+  let w := [1/4; 1/4; 1/4; 1/4] in
+  let qs := [mkQR 1 0 0 0; mkQR 0 1 0 0; mkQR 0 0 1 0; mkQR 0 0 0 1] in
+  max_eig_contract (outer_sum ROps w qs) (mkQR 1 0 0 0) /\ max_eig_contract (outer_sum ROps w qs) (mkQR 0 1 0 0).
+Proof. exact contract_not_unique_without_simplicity. Qed.
+
+(* two (possibly different) eigen-solver oracles, e.g. the solver on differently rounded matrices *)
+Theorem C18_mean_negation_invariant_rotation eig eig' (bs : list bool) (w : list R) (qs : list Q) :
+  top_simple (outer_sum ROps w qs) ->
+  max_eig_contract (outer_sum ROps w qs) (qmean ROps eig w qs) ->
+  max_eig_contract (outer_sum ROps w (flip bs qs)) (qmean ROps eig' w (flip bs qs)) ->
+  qmean ROps eig' w (flip bs qs) = qmean ROps eig w qs \/ qmean ROps eig' w (flip bs qs) = qneg (qmean ROps eig w qs).
+Proof. exact (mean_negation_rotation bs w qs (qmean ROps eig w qs) (qmean ROps eig' w (flip bs qs))). Qed.
+
+Theorem C18_mean_permutation_invariant_rotation eig eig' (w : list R) (qs : list Q) w' qs' :
+  Permutation (combine w qs) (combine w' qs') -> top_simple (outer_sum ROps w qs) ->
+  max_eig_contract (outer_sum ROps w qs) (qmean ROps eig w qs) ->
+  max_eig_contract (outer_sum ROps w' qs') (qmean ROps eig' w' qs') ->
+  qmean ROps eig' w' qs' = qmean ROps eig w qs \/ qmean ROps eig' w' qs' = qneg (qmean ROps eig w qs).
+Proof. exact (mean_permutation_rotation w qs w' qs' (qmean ROps eig w qs) (qmean ROps eig' w' qs')). Qed.
+
+(* ---- (b) all inputs +-q, positive total weight W: the matrix is W q q^T, its spectrum is {W on the line of q, 0 on
+   the orthogonal complement}, W is simple (DERIVED), and q itself meets the contract (the premise is satisfiable) *)
+Theorem C18_mean_all_equal_matrix (q : Q) (w : list R) (qs : list Q) i j : all_pm q qs ->
+  outer_sum ROps w qs i j = wtot w qs * qcomp ROps q i * qcomp ROps q j.
+Proof. exact (all_pm_matrix q w qs i j). Qed.
+
+Theorem C18_mean_all_equal_spectrum (q : Q) (w : list R) (qs : list Q) (u : Q) mu :
+  qnorm2 q = 1 -> all_pm q qs -> 0 < wtot w qs -> qnorm2 u <> 0 ->
+  is_eigvec (outer_sum ROps w qs) u mu ->
+  (mu = wtot w qs /\ u = qscale (qdot q u) q) \/ (mu = 0 /\ qdot q u = 0).
+Proof. exact (all_pm_spectrum q w qs u mu). Qed.
+
+Theorem C18_mean_all_equal_simple (q : Q) (w : list R) (qs : list Q) :
+  qnorm2 q = 1 -> all_pm q qs -> 0 < wtot w qs ->
+  top_simple (outer_sum ROps w qs) /\ is_top (outer_sum ROps w qs) (wtot w qs) /\ max_eig_contract (outer_sum ROps w qs) q.
+Proof. intros H1 H2 H3. exact (conj (all_pm_top_simple q w qs H1 H2 H3) (conj (all_pm_is_top q w qs H1 H2 H3) (all_pm_contract q w qs H1 H2 H3))). Qed.
+
+(* the property's form: one weight per input, weights summing to one *)
+Theorem C18_mean_all_equal_sum_one eig (w : list R) (qs : list Q) (q : Q) :
+  qnorm2 q = 1 -> all_pm q qs -> length w = length qs -> fold_right Rplus 0 w = 1 ->
+  max_eig_contract (outer_sum ROps w qs) (qmean ROps eig w qs) ->
+  qmean ROps eig w qs = q \/ qmean ROps eig w qs = qneg q.
+Proof. exact (mean_all_equal_sum_one eig w qs q). Qed.
+
+(* ---- (c) symmetric sets with a central weight of ANY sign (unscented sets), positive pair weights: explicit premise
+   2 sum_j w_j |vec a_j|^2 < w0 + 2 sum_j w_j Re(a_j)^2   (vcoef / sym_coef); the eigen-gap is DERIVED from it ... *)
+Theorem C18_mean_symmetric_gap_any_central_weight (qc : Q) w0 (ws : list R) (al : list Q) :
+  qnorm2 qc = 1 -> length ws = length al -> Forall (fun w => 0 < w) ws ->
+  2 * vcoef ws al < w0 + 2 * sym_coef ws al ->
+  forall u mu, is_eigvec (outer_sum ROps (sym_weights w0 ws) (sym_quats qc al)) u mu ->
+               (forall k, u <> qscale k qc) -> mu < w0 + 2 * sym_coef ws al.
+Proof. exact (sym_gap_gen qc w0 ws al). Qed.
+
+(* ... the largest eigenvalue is simple and the centre meets the contract (the oracle premise is satisfiable) ... *)
+Theorem C18_mean_symmetric_simple (qc : Q) w0 (ws : list R) (al : list Q) :
+  qnorm2 qc = 1 -> length ws = length al -> Forall (fun w => 0 < w) ws ->
+  2 * vcoef ws al < w0 + 2 * sym_coef ws al ->
+  top_simple (outer_sum ROps (sym_weights w0 ws) (sym_quats qc al)) /\
+  max_eig_contract (outer_sum ROps (sym_weights w0 ws) (sym_quats qc al)) qc.
+Proof. intros H1 H2 H3 H4. exact (conj (sym_top_simple qc w0 ws al H1 H2 H3 H4) (sym_centre_contract qc w0 ws al H1 H2 H3 H4)). Qed.
+
+(* ... so the mean is +- the centre *)
+Theorem C18_mean_symmetric_any_central_weight eig (qc : Q) w0 (ws : list R) (al : list Q) :
+  qnorm2 qc = 1 -> length ws = length al -> Forall (fun w => 0 < w) ws ->
+  2 * vcoef ws al < w0 + 2 * sym_coef ws al ->
+  max_eig_contract (outer_sum ROps (sym_weights w0 ws) (sym_quats qc al)) (qmean ROps eig (sym_weights w0 ws) (sym_quats qc al)) ->
+  qmean ROps eig (sym_weights w0 ws) (sym_quats qc al) = qc \/
+  qmean ROps eig (sym_weights w0 ws) (sym_quats qc al) = qneg qc.
+Proof. exact (mean_symmetric_gen eig qc w0 ws al). Qed.
+
+(* the library's own sigma-point layout  qc, qc (+) d_j, qc (+) (-d_j)  (sigma_quats, built with the model's qsum):
+   it is a symmetric set with offsets exp(d_j / 2) ... *)
+Theorem C18_sigma_set_layout (qc : Q) (ds : list V) :
+  sigma_quats qc ds = qc :: qsum ROps qc ds ++ qsum ROps qc (map vneg ds) /\
+  sigma_quats qc ds = sym_quats qc (map (rv_to_q ROps) ds).
+Proof. exact (conj eq_refl (sigma_quats_sym qc ds)). Qed.
+
+(* ... rcos d = 2 Re(exp(d/2))^2 - 1 is cos|d| outside the exponential's cut-off and 1 inside ... *)
+Theorem C18_sigma_angle (d : V) : (cut < n3 d -> rcos d = cos (n3 d)) /\ (n3 d <= cut -> rcos d = 1).
+Proof. exact (conj (rcos_big d) (rcos_zone d)). Qed.
+
+(* ... and its mean is +- the centre when  0 < w0 + 2 sum_j w_j cos|d_j|  (wcos), whatever the sign of w0 *)
+Theorem C18_mean_sigma_set eig (qc : Q) w0 (ws : list R) (ds : list V) :
+  qnorm2 qc = 1 -> length ws = length ds -> Forall (fun w => 0 < w) ws ->
+  0 < w0 + 2 * wcos ws ds ->
+  max_eig_contract (outer_sum ROps (sym_weights w0 ws) (sigma_quats qc ds)) (qmean ROps eig (sym_weights w0 ws) (sigma_quats qc ds)) ->
+  qmean ROps eig (sym_weights w0 ws) (sigma_quats qc ds) = qc \/
+  qmean ROps eig (sym_weights w0 ws) (sigma_quats qc ds) = qneg qc.
+Proof. exact (mean_sigma_set eig qc w0 ws ds). Qed.
+
+(* for weights summing to one the premise reads  2 sum_j w_j (1 - cos|d_j|) < 1  (wvers) *)
+Theorem C18_sigma_margin_sum_one w0 (ws : list R) (ds : list V) :
+  length ws = length ds -> w0 + 2 * fold_right Rplus 0 ws = 1 -> w0 + 2 * wcos ws ds = 1 - 2 * wvers ws ds.
+Proof. exact (margin_sum_one w0 ws ds). Qed.
+
+(* WITHOUT the premise the clause "equals the common centre" is false for an unscented weight set: n = 1,
+   n + lambda = 1/2, weights (-1, 1, 1) summing to one, offsets +-2 atan(3/4) around the identity: the accumulated
+   matrix is diag(7/25, 18/25, 0, 0), every vector meeting the contract is +-i, orthogonal to the centre *)
+Theorem C18_mean_symmetric_negative_weight_refuted :
+  let qc := Q1 in let al := [mkQR (4/5) (3/5) 0 0] in let ws := [1] in let w0 := -1 in
+  qnorm2 qc = 1 /\ length ws = length al /\ Forall (fun w => 0 < w) ws /\ Forall tight al /\
+  w0 + 2 * fold_right Rplus 0 ws = 1 /\
+  (forall v, max_eig_contract (outer_sum ROps (sym_weights w0 ws) (sym_quats qc al)) v ->
+             (v = mkQR 0 1 0 0 \/ v = mkQR 0 (-1) 0 0) /\ v <> qc /\ v <> qneg qc) /\
+  max_eig_contract (outer_sum ROps (sym_weights w0 ws) (sym_quats qc al)) (mkQR 0 1 0 0).
+Proof. exact mean_symmetric_negative_weight_refuted. Qed.
+
+(* partial: symmetric sets outside the explicit premise above (the premise bounds the spectrum on the complement of the
+   centre by its trace; sets whose offsets point in different directions can have a dominant centre although the trace
+   bound fails): dominance of the centre's eigenvalue is then a premise (explicit eigen-gap), not derived *)
 Theorem C18_mean_symmetric_partial eig (qc : Q) w0 (ws : list R) (al : list Q) :
   qnorm2 qc = 1 -> length ws = length al ->
   let A := outer_sum ROps (sym_weights w0 ws) (sym_quats qc al) in
@@ -176,6 +302,11 @@ Example C18_symmetric_premises_satisfiable :
   qnorm2 qc = 1 /\ length ws = length al /\ 0 <= w0 /\ Forall (fun w => 0 < w) ws /\ Forall tight al /\ (0 < w0 \/ al <> []) /\
   sym_quats qc al = [Q1; mkQR (4/5) (3/5) 0 0; mkQR (4/5) (-(3/5)) 0 0] /\ w0 + 2 * sym_coef ws al = 41/50.
 Proof. exact example_symmetric_premises. Qed.
+Example C18_negative_central_weight_premises_satisfiable :
+  let qc := Q1 in let al := [mkQR (35/37) (12/37) 0 0] in let ws := [2] in let w0 := -3 in
+  qnorm2 qc = 1 /\ length ws = length al /\ Forall (fun w => 0 < w) ws /\ w0 < 0 /\
+  w0 + 2 * fold_right Rplus 0 ws = 1 /\ 2 * vcoef ws al < w0 + 2 * sym_coef ws al.
+Proof. exact example_negative_weight_premises. Qed.
 Example C18_eigen_contract_satisfiable : max_eig_contract (outer_sum ROps [1] [Q1]) Q1.
 Proof. exact example_contract. Qed.
 
@@ -209,4 +340,22 @@ Print Assumptions C18_mean_all_equal.
 Print Assumptions C18_mean_symmetric_centre_is_eigenvector.
 Print Assumptions C18_mean_symmetric_gap.
 Print Assumptions C18_mean_symmetric.
+Print Assumptions C18_mean_matrix_negation_invariant.
+Print Assumptions C18_mean_matrix_permutation_invariant.
+Print Assumptions C18_mean_contract_fixes_rotation.
+Print Assumptions C18_mean_contract_needs_simplicity.
+Print Assumptions C18_mean_negation_invariant_rotation.
+Print Assumptions C18_mean_permutation_invariant_rotation.
+Print Assumptions C18_mean_all_equal_matrix.
+Print Assumptions C18_mean_all_equal_spectrum.
+Print Assumptions C18_mean_all_equal_simple.
+Print Assumptions C18_mean_all_equal_sum_one.
+Print Assumptions C18_mean_symmetric_gap_any_central_weight.
+Print Assumptions C18_mean_symmetric_simple.
+Print Assumptions C18_mean_symmetric_any_central_weight.
+Print Assumptions C18_sigma_set_layout.
+Print Assumptions C18_sigma_angle.
+Print Assumptions C18_mean_sigma_set.
+Print Assumptions C18_sigma_margin_sum_one.
+Print Assumptions C18_mean_symmetric_negative_weight_refuted.
 Print Assumptions C18_mean_symmetric_partial.
